@@ -313,6 +313,52 @@ where
 }
 
 pub(crate) const BUFFER_SIZE: usize = 256;
+#[cfg(not(zlink_verif))]
 const MAX_BUFFER_SIZE: usize = 100 * 1024 * 1024; // Don't allow buffers over 100MB.
+#[cfg(zlink_verif)]
+const MAX_BUFFER_SIZE: verif_hooks::MaxBufferSize = verif_hooks::MaxBufferSize;
+
+/// Verification-only hooks (`--cfg zlink_verif`): the buffer size limit becomes a per-thread knob.
+///
+/// With the cfg off this module does not exist and `MAX_BUFFER_SIZE` is the plain constant above.
+#[cfg(zlink_verif)]
+#[doc(hidden)]
+pub mod verif_hooks {
+    #[allow(unused_extern_crates)]
+    extern crate std;
+    use core::{cell::Cell, cmp::Ordering};
+
+    const PRODUCTION_LIMIT: usize = 100 * 1024 * 1024;
+
+    std::thread_local! {
+        static LIMIT: Cell<usize> = const { Cell::new(PRODUCTION_LIMIT) };
+    }
+
+    /// Set the buffer size limit for connections used on the current thread.
+    pub fn set_max_buffer_size(limit: usize) {
+        LIMIT.with(|l| l.set(limit));
+    }
+
+    /// The buffer size limit in effect on the current thread.
+    pub fn max_buffer_size() -> usize {
+        LIMIT.with(|l| l.get())
+    }
+
+    /// Stand-in for the limit constant; compares like the current thread's limit.
+    #[derive(Debug, Clone, Copy)]
+    pub struct MaxBufferSize;
+
+    impl PartialEq<MaxBufferSize> for usize {
+        fn eq(&self, _: &MaxBufferSize) -> bool {
+            *self == max_buffer_size()
+        }
+    }
+
+    impl PartialOrd<MaxBufferSize> for usize {
+        fn partial_cmp(&self, _: &MaxBufferSize) -> Option<Ordering> {
+            self.partial_cmp(&max_buffer_size())
+        }
+    }
+}
 
 static NEXT_ID: AtomicUsize = AtomicUsize::new(0);
